@@ -158,7 +158,7 @@ var warmupCache = map[string]int{}
 // (Holds) it emits for an empty input, i.e. the amount of its final Shift. -1 if the run on the
 // empty input does not terminate.
 func measureWarmup(c *Case) int {
-	key := fmt.Sprintf("%s|%v|%d|%v", specName(c.spec()), c.Cfg, c.Scale, c.Subs)
+	key := fmt.Sprintf("%s|%v|%d|%v|%v", specName(c.spec()), c.Cfg, c.Scale, c.Subs, scalePublicOnly)
 	if v, ok := warmupCache[key]; ok {
 		return v
 	}
